@@ -15,7 +15,7 @@ echo "|---|---|---|---|---|---|"
 for d in seeded/*/; do
   name=$(basename "$d")
   [ -f "$d/patch.diff" ] || continue
-  [ -n "$only" ] && [ "$only" != "$name" ] && continue
+  [ -n "$only" ] && [[ "$name" != $only ]] && continue
   id=$(python3 -c "import json,sys; print(json.load(open('$d/meta.json'))['property'])" 2>/dev/null || echo "${name:0:3}")
   tmp=$(mktemp -d /tmp/vp-seeded-XXXXXX)
   rsync -a --exclude .git --exclude __pycache__ --exclude build --exclude doc /repo/ "$tmp/repo/"
